@@ -81,6 +81,9 @@ pub fn menu() -> Vec<Req> {
         q("SELECT s + 1 FROM t"),
         q("SELECT w * w FROM t"),
         q("SELECT SUM(w) + SUM(w) FROM t"),
+        // constant-only projections: the engine panics while converting the final result, i.e. inside the task's critical section
+        q("SELECT 1 FROM t"),
+        q("SELECT 'c' FROM t"),
         q("SELECT SUM(big) FROM t"),
         q("SELECT k, SUM(big) FROM t"),
         q("SELECT id FROM t GROUP BY id"),
@@ -328,7 +331,7 @@ impl Engine for C11 {
         let depth = if tier == Tier::Quick { 2 } else { 3 };
         Describe {
             level: "model_checking",
-            rule: format!("(a) every sequence of 1..{} requests over a menu of 25 (valid query, syntax error, type error, overflow, overflow in the final pass, overflow that only appears when the partial sums of three partitions are merged, unsupported construct, unknown table, OFFSET beyond the table, invalid regex, fractional LIMIT, two aggregates that make the engine panic internally, ORDER BY constant, empty statement, SELECT *, ingestion of rows / of a zero-row table part / of a mixed column with NULL / of a new table and column, force_flush, table_stats, mem_tree, evict_cache) on 5 database configurations (1 or 2 workers x memory-only or on disk, with compaction after every flush / occasional / never) holding a three-partition table that exercises offset, dictionary, hex-packed and nullable encodings; every call must return a value or an error within the deadline, and after EVERY request the canary set must succeed: COUNT(1) equals the acknowledged row count, an ingestion is acknowledged and visible, force_flush returns, table_stats answers; (b) six failing queries placed at every sync point of a concurrent force_flush with compaction (all schedules with at most 2 context switches): flush and query must complete, no database thread may panic, afterwards all rows are there. Non-trivial: sequences containing a failing request; distinct by (configuration, sequence) / sync-point trace.", depth),
+            rule: format!("(a) every sequence of 1..{} requests over a menu of 27 (valid query, syntax error, type error, overflow, overflow in the final pass, overflow that only appears when the partial sums of three partitions are merged, unsupported construct, unknown table, OFFSET beyond the table, invalid regex, fractional LIMIT, two aggregates that make the engine panic internally, constant-only projections that make it panic while the finished task holds its state lock, ORDER BY constant, empty statement, SELECT *, ingestion of rows / of a zero-row table part / of a mixed column with NULL / of a new table and column, force_flush, table_stats, mem_tree, evict_cache) on 5 database configurations (1 or 2 workers x memory-only or on disk, with compaction after every flush / occasional / never) holding a three-partition table that exercises offset, dictionary, hex-packed and nullable encodings; every call must return a value or an error within the deadline, and after EVERY request the canary set must succeed: COUNT(1) equals the acknowledged row count, an ingestion is acknowledged and visible, force_flush returns, table_stats answers; (b) six failing queries placed at every sync point of a concurrent force_flush with compaction (all schedules with at most 2 context switches): flush and query must complete, no database thread may panic, afterwards all rows are there. Non-trivial: sequences containing a failing request; distinct by (configuration, sequence) / sync-point trace.", depth),
             assumptions: vec!["deadline 3 s per call (12 s on re-run and replay)".into(), "a panic inside a worker that is caught and reported as an error value is not a violation by itself; the canaries decide whether the database was damaged".into()],
             bounds: json!({"menu": menu().iter().map(req_name).collect::<Vec<_>>(), "depth": depth, "configurations": configs().len()}),
             states_meaning: "distinct (configuration, request sequence) cases and schedules executed",
